@@ -77,7 +77,7 @@ def _consumptions(g, name):
     return out
 
 
-def one_shot_rules(ctx, rule, paths):
+def one_shot_rules(ctx, rule, paths, only=None):
     """Every local (or parameter) of the given modules that holds a one-shot iterator is run through at most once on any path.
     A second pass (a debug `list(x)`, a `sum(1 for _ in x)`, a `next(x)` to peek) silently sees nothing - or steals what the real
     consumer needed."""
@@ -106,6 +106,8 @@ def one_shot_rules(ctx, rule, paths):
                     if is_one_shot(v, prods):
                         oneshot_params.setdefault(tg[0].qualname, set()).add(ps[i])
         for f in funcs:
+            if only is not None and (path, f.qualname) not in only:
+                continue
             names = {}
             for s in walk_own(f.node):
                 if isinstance(s, ast.Assign) and len(s.targets) == 1 and isinstance(s.targets[0], ast.Name) and is_one_shot(s.value, prods):
@@ -195,7 +197,7 @@ def _changes_state(func):
     return None
 
 
-def logging_purity_rules(ctx, rule, paths):
+def logging_purity_rules(ctx, rule, paths, only=None):
     """Logging / debug statements are observers: a call among their arguments that resolves to a function of the same module must not
     change state (store attributes, pop / put / clear containers, take locks, send).  Checked for every logging statement of the given
     modules whose arguments contain such a resolvable call."""
@@ -207,6 +209,8 @@ def logging_purity_rules(ctx, rule, paths):
         for f in mod.all_funcs():
             by_name.setdefault(f.name, []).append(f)
         for f in mod.all_funcs():
+            if only is not None and (path, f.qualname) not in only:
+                continue
             for st in walk_own(f.node):
                 if not (isinstance(st, ast.Expr) and is_noise(st) and isinstance(st.value, ast.Call)):
                     continue
@@ -229,3 +233,143 @@ def only_none_guards(extra, *names):
     for nm in names:
         allowed |= {fact_key('%s is None' % nm, False), fact_key(nm, True)}
     return set(extra) <= allowed
+
+
+MUTATORS = ('append', 'extend', 'insert', 'pop', 'remove', 'clear', 'update', 'add', 'discard', 'setdefault', 'popitem', 'sort', 'reverse', 'appendleft', 'popleft')
+
+
+def _is_mutable_display(e):
+    if isinstance(e, (ast.List, ast.Dict, ast.Set, ast.ListComp, ast.DictComp, ast.SetComp)):
+        return True
+    return isinstance(e, ast.Call) and isinstance(e.func, ast.Name) and e.func.id in ('list', 'dict', 'set', 'bytearray', 'deque', 'defaultdict', 'OrderedDict') and not e.args
+
+
+def shared_state_rules(ctx, rule, paths, only=None):
+    """Two ways in which state meant for one call / one object silently becomes shared, for every function and class of the modules:
+    a mutable default argument that the body changes (the same object is used by every later call), and a mutable class-level
+    attribute that methods change through self without any method binding a fresh one on the instance (all instances share it)."""
+    m = ctx.model
+    n = 0
+    for path in paths:
+        mod = m.mod(path)
+        for f in mod.all_funcs():
+            if only is not None and (path, f.qualname) not in only:
+                continue
+            a = f.node.args
+            pos = a.posonlyargs + a.args
+            pairs = list(zip(pos[len(pos) - len(a.defaults):], a.defaults)) + [(p, d) for p, d in zip(a.kwonlyargs, a.kw_defaults) if d is not None]
+            for p_, d_ in pairs:
+                if not _is_mutable_display(d_):
+                    continue
+                changed = [norm(x)[:50] for x in ast.walk(f.node) if
+                           (isinstance(x, ast.Call) and isinstance(x.func, ast.Attribute) and x.func.attr in MUTATORS and isinstance(x.func.value, ast.Name) and x.func.value.id == p_.arg) or
+                           (isinstance(x, ast.Subscript) and isinstance(x.ctx, (ast.Store, ast.Del)) and isinstance(x.value, ast.Name) and x.value.id == p_.arg) or
+                           (isinstance(x, ast.AugAssign) and isinstance(x.target, ast.Name) and x.target.id == p_.arg)]
+                stored = []
+                for x in ast.walk(f.node):
+                    if isinstance(x, ast.Assign) and isinstance(x.value, ast.Name) and x.value.id == p_.arg:
+                        for t in x.targets:
+                            # kept on the object AND changed in place through that attribute by some method of the class
+                            if isinstance(t, ast.Attribute) and isinstance(t.value, ast.Name) and t.value.id == 'self' and f.cls is not None and any(
+                                    (isinstance(y, ast.Call) and isinstance(y.func, ast.Attribute) and y.func.attr in MUTATORS and norm(y.func.value) == 'self.' + t.attr) or
+                                    (isinstance(y, ast.Subscript) and isinstance(y.ctx, (ast.Store, ast.Del)) and norm(y.value) == 'self.' + t.attr) or
+                                    (isinstance(y, ast.AugAssign) and norm(y.target) == 'self.' + t.attr)
+                                    for y in ast.walk(f.cls.node)):
+                                stored.append(norm(x)[:50])
+                n += 1
+                ctx.inst(rule, f, 'default-not-shared:' + p_.arg, not changed and not stored,
+                         'the default of %s is one object for all calls; the function changes it (%s) or keeps it on the object (%s)' % (p_.arg, changed, stored))
+        for c in mod.all_classes():
+            if only is not None and not any(p_ == path and q_.startswith(c.qualname + '.') for p_, q_ in only):
+                continue
+            cl = {}
+            for st in c.node.body:
+                if isinstance(st, ast.Assign) and len(st.targets) == 1 and isinstance(st.targets[0], ast.Name) and _is_mutable_display(st.value):
+                    cl[st.targets[0].id] = st
+            for name, st in cl.items():
+                if name.isupper():
+                    continue                      # tables by convention
+                rebinds = [x for x in ast.walk(c.node) if isinstance(x, ast.Attribute) and isinstance(x.ctx, ast.Store) and x.attr == name and
+                           isinstance(x.value, ast.Name) and x.value.id == 'self']
+                changes = [norm(x)[:50] for x in ast.walk(c.node) if
+                           (isinstance(x, ast.Call) and isinstance(x.func, ast.Attribute) and x.func.attr in MUTATORS and isinstance(x.func.value, ast.Attribute) and
+                            x.func.value.attr == name and isinstance(x.func.value.value, ast.Name) and x.func.value.value.id == 'self') or
+                           (isinstance(x, ast.Subscript) and isinstance(x.ctx, (ast.Store, ast.Del)) and isinstance(x.value, ast.Attribute) and x.value.attr == name and
+                            isinstance(x.value.value, ast.Name) and x.value.value.id == 'self') or
+                           (isinstance(x, ast.AugAssign) and isinstance(x.target, ast.Attribute) and x.target.attr == name and isinstance(x.target.value, ast.Name) and
+                            x.target.value.id == 'self')]
+                n += 1
+                ctx.inst(rule, (path, c.qualname), 'instance-state-not-on-class:' + name, not changes or bool(rebinds),
+                         '%s.%s is a mutable class attribute that methods change through self (%s) and that no method re-binds on the instance: all instances share it'
+                         % (c.qualname, name, changes), line=st.lineno)
+    return n
+
+
+def truthiness_rules(ctx, rule, paths, only=None):
+    """An object that is tested for presence by truth (`if self.toc:`, `if not pk:`, `x or default`) must not define __len__ / __bool__:
+    an empty-but-present object would count as absent.  Resolved for attributes and locals that are bound to `Class(...)` of a class
+    defined in the given modules."""
+    m = ctx.model
+    classes = {}
+    for path in paths:
+        for c in m.mod(path).all_classes():
+            classes.setdefault(c.name, []).append(c)
+    sized = {nm: [c for c in cs if c.has('__len__') or c.has('__bool__')] for nm, cs in classes.items()}
+    n = 0
+    for path in paths:
+        mod = m.mod(path)
+        # attribute / local name -> class names it is bound to anywhere in the module
+        bound = {}
+        for f in mod.all_funcs():
+            for st in walk_own(f.node):
+                if isinstance(st, ast.Assign) and isinstance(st.value, ast.Call):
+                    cn = (dotted(st.value.func) or '').split('.')[-1]
+                    if cn in classes:
+                        for t in st.targets:
+                            bound.setdefault(norm(t), set()).add(cn)
+        for f in mod.all_funcs():
+            if only is not None and (path, f.qualname) not in only:
+                continue
+            tests = []
+            for x in ast.walk(f.node):
+                if isinstance(x, (ast.If, ast.While, ast.IfExp)):
+                    tests.append(x.test)
+                elif isinstance(x, ast.Assert):
+                    tests.append(x.test)
+            seen = set()
+            for t in tests:
+                atoms = []
+                todo = [t]
+                while todo:
+                    e = todo.pop()
+                    if isinstance(e, ast.BoolOp):
+                        todo.extend(e.values)
+                    elif isinstance(e, ast.UnaryOp) and isinstance(e.op, ast.Not):
+                        todo.append(e.operand)
+                    else:
+                        atoms.append(e)
+                for a in atoms:
+                    key = norm(a)
+                    if not isinstance(a, (ast.Name, ast.Attribute)) or key in seen or key not in bound:
+                        continue
+                    seen.add(key)
+                    bad = sorted(cn for cn in bound[key] if sized.get(cn))
+                    n += 1
+                    ctx.inst(rule, f, 'presence-by-truth:' + key, not bad,
+                             '%s is tested for presence by truth but %s defines __len__/__bool__: an empty object counts as missing' % (key, bad))
+    return n
+
+
+def generic_rules(ctx, rule='RG'):
+    """Hygiene conditions every property needs of the functions that implement it (= the functions that carry instances of the
+    property's own rules): one-shot iterators run through once, logging arguments do not act, no state shared through a mutable
+    default or a mutable class attribute, no __len__/__bool__ on an object whose presence is tested by truth."""
+    only = {(p, q) for p, q in ctx.functions if q}
+    paths = sorted({p for p, _ in only if p.endswith('.py')})
+    paths = [p for p in paths if ctx.model.exists(p)]
+    n = 0
+    n += one_shot_rules(ctx, rule, paths, only)
+    n += logging_purity_rules(ctx, rule, paths, only)
+    n += shared_state_rules(ctx, rule, paths, only)
+    n += truthiness_rules(ctx, rule, paths, only)
+    return n
